@@ -156,6 +156,9 @@ class ControlThread(Thread):
         no longer running.
         """
         self._logger.info("Shutting down...")
+        # Release the system clock first (no-op unless paused), as `resume()` does:
+        # the threads blocked by a pause are about to wake up.
+        self.on_resumed()
         self._controller.shutdown()
         self._running = False
 
